@@ -13,10 +13,10 @@ CONSTANTS
   MaxPub = 1
   MaxAhead = 1
   Interleave = FALSE
-  Faults = TRUE
+  Faults = FALSE
   RefChoice = FALSE
   RemoteAnytime = FALSE
-  Eager = TRUE
+  Eager = FALSE
   Track = FALSE
 VIEW View
 ACTION_CONSTRAINT Emit
